@@ -67,6 +67,13 @@ pub fn c14(tier: &str, seed: u64) -> Vec<Case> {
             d.push((vec![a, b, 0, 0, 0, 1, 0, 0, 0, 0, 0, 0, 0xC0, low, 0, 1, 0, 1], "hidden-pointer-structure".into()));
             d.push((vec![a, b, 0x84, 0, 0, 0, 0, 1, 0, 0, 0, 0, 0xC0, low, 0, 1, 0, 1, 0, 0, 0, 9, 0, 4, 1, 2, 3, 4], "hidden-pointer-structure".into()));
         } } }
+        // names that are pointers into the header, the label there running to the very end of the datagram
+        for m in crate::props::c01::pointer_into_header_messages() {
+            let mut asq = m.clone();
+            d.push((m, "pointer-into-header".into()));
+            asq[2] |= 0x80; // the same bytes as a response (the discovery listener ingests those)
+            d.push((asq, "pointer-into-header".into()));
+        }
         for junk in [[0xC0u8, 0x19, 0, 0], [0xC0, 0x1A, 0xC0, 0x19], [0xC0, 0x17, 0xC0, 0x17]] {
             let mut m = vec![0u8, 0, 0x84, 0, 0, 0, 0, 2, 0, 0, 0, 0, 0, 0, 1, 0, 1, 0, 0, 0, 0, 0, 4];
             m.extend_from_slice(&junk);
